@@ -29,6 +29,9 @@ ENGINES = [
 ]
 
 
+READY = set(open(os.path.join(VERIF, "tools", "ready.txt")).read().split())
+
+
 def main():
     props = [json.loads(l) for l in open(os.path.join(VERIF, "properties.jsonl"))]
     checks = []
@@ -37,7 +40,7 @@ def main():
     for p in props:
         pid = p["id"]
         path = os.path.join(VERIF, "checks", pid.lower() + ".py")
-        if not os.path.exists(path):
+        if pid not in READY or not os.path.exists(path):
             na.append({"property_id": pid,
                        "reason": NA_REASONS.get(pid, "check not built yet (work in progress; see DESIGN.md §2 %s for the planned design)" % pid)})
             continue
